@@ -17,7 +17,7 @@ META = dict(
     text="all histories up to depth D over {request of 1 frame, request of 2 frames, deliver next genuine frame, replay an earlier genuine frame, deliver a genuine frame sealed under a future counter, "
     "corrupted frame, cancel the in-flight request, fire the timeout, (CoAP) genuine / replayed / corrupted event}; after a failure requests keep being issued through the public API so reconnect and a "
     "new pair-verify are inside the explored space; oracle: no two successful encrypt calls with equal (key, nonce); every genuine frame yields plaintext at most once and accepted frame numbers are "
-    "strictly increasing per key; replayed, corrupted and injected frames never yield plaintext The IP alphabet includes a read carrying a whole block plus the beginning of the next; the CoAP alphabet an authentic event whose handling raises after decryption, and its replay. Also: CoAP answers changing places (two requests on the wire); BLE: a GATT write refused / its acknowledgement lost while the link stays up. CoAP: also a request answered with a CoAP error code and a plain payload (5.03) after the accessory counted it. IP: also against a peer that has stopped reading (a closed connection reports its loss late; requests in between meet the old protocol object).",
+    "strictly increasing per key; replayed, corrupted and injected frames never yield plaintext The IP alphabet includes a read carrying a whole block plus the beginning of the next; the CoAP alphabet an authentic event whose handling raises after decryption, and its replay. Also: CoAP answers changing places (two requests on the wire); BLE: a GATT write refused / its acknowledgement lost while the link stays up. CoAP: also a request answered with a CoAP error code and a plain payload (5.03) after the accessory counted it. IP: also against a peer that has stopped reading (a closed connection reports its loss late; requests in between meet the old protocol object). IP: an authentic block of zero plaintext bytes and its replay. BLE broadcasts (nonce = state number under the broadcast key): the history search of C18 from bases next to the roll-over, replay clause.",
     note="counters are kept concrete (no abstraction); depth bound as reported; AEAD primitives trusted",
     design_ref="DESIGN.md §4 C06",
     rule="state = canonical (counters, buffers, queues, caller states); transition = one history symbol; execution = maximal path",
